@@ -135,6 +135,21 @@ func Scenarios() []scenario {
 		c.SetWill(w)
 		return []any{c, w}, [][]thrOp{{opWrite("connect", c), opString("connect", c)}, {opWrite("will", w), opString("will", w), opAcc("will", w)}}
 	}})
+	out = append(out, scenario{"will-modified-after-attach", func() ([]any, [][]thrOp) {
+		w := mq.Pub(1, "will/topic", "payload")
+		c := mq.NewConnect()
+		c.SetClientID("cid")
+		c.SetWill(w)
+		w.SetPayload([]byte("another payload"))
+		w.SetTopicName("other")
+		return []any{c, w}, [][]thrOp{{opWrite("connect", c), opString("connect", c)}, {opString("connect2", c), opDump("connect2", c), opWrite("will", w)}}
+	}})
+	out = append(out, scenario{"unsorted-userprops/PUBLISH", func() ([]any, [][]thrOp) {
+		p := mq.Pub(1, "t", "payload")
+		p.SetPacketID(9)
+		p.AddUserProp("size", "1", "color", "2", "size", "0", "alpha", "3")
+		return []any{p}, [][]thrOp{{opDump("A", p), opWrite("A", p)}, {opWrite("B", p), opString("B", p), opAcc("B", p)}}
+	}})
 	out = append(out, scenario{"two-types", func() ([]any, [][]thrOp) {
 		c := mustBuild(richPacket(1, true))
 		a := mustBuild(richPacket(4, true))
@@ -379,7 +394,7 @@ func runC13(x *core.Ctx) {
 				if sl.Big != nil && sl.Big(val) {
 					return true
 				}
-				return sl.N > 20 && val > 3 && val != sl.Primary // keep big list/reason domains small here
+				return sl.N > 64 && val > 3 && val != sl.Primary // keep the 256-value reason/code domains small here
 			}, func(v gen.Vec, nd int) bool { targets = append(targets, append(gen.Vec{}, v...)); return true })
 		}
 		for _, v := range targets {
